@@ -95,7 +95,8 @@ def main(ctx):
               "reply_out_of_order", "id_wrapped", "flat_execs", "progress_details_delivered",
               "dup_after_result", "dup_after_error", "completed_ok", "completed_err",
               "reentrant_execs", "twosession_execs", "flat2_decorated_register",
-              "flat2_decorated_subscribe", "flat2_encrypted_with_options", "unrequested_progress:ignored"):
+              "flat2_decorated_subscribe", "flat2_encrypted_with_options", "unrequested_progress:ignored",
+              "flat2_request_from_callback"):
         ctx.require(n)
 
 
@@ -1222,6 +1223,49 @@ def _job_flat2(a, env, seed):
                     bad("request-wire", "%s with a payload codec not encrypted: %r" % (kind, sent[0][:4]))
                 if kind == "publish" and exp.get("acknowledge") and l1.fstate("x")[0] != "pending":
                     bad("request-future", "acknowledged publish not pending: %r" % (l1.fbrief("x"),))
+    # ---- (3) a request issued from the completion callback of another request: unsubscribe() /
+    # unregister() called at once from the callback of subscribe() / register() (Twisted runs it
+    # inside the processing of SUBSCRIBED / REGISTERED) sends exactly one request and returns a
+    # pending result
+    from autobahn.wamp import message as M
+    for kind in ("subscribe", "register"):
+        l1 = H.L1().join()
+        s = l1.session
+        inner = []
+        if kind == "subscribe":
+            r = l1.api(s.subscribe, lambda *a_, **k_: None, "com.flat2.cb.topic")
+        else:
+            r = l1.api(s.register, lambda *a_, **k_: None, "com.flat2.cb.proc")
+        fut = r[1]
+
+        def cb(obj, _inner=inner, _l1=l1, _kind=kind):
+            n0 = len(_l1.transport.sent)
+            rr = _l1.api(obj.unsubscribe if _kind == "subscribe" else obj.unregister)
+            if rr[0] == "ok" and rr[1] is not None:
+                _l1.track("inner", rr[1])
+            _inner.append((rr[0], rr[1] if rr[0] == "raise" else None, [R.norm_wire(w_) for w_ in _l1.wire(n0)]))
+            return obj
+        if l1.fw == "tx":
+            fut.addCallback(cb)
+        else:
+            fut.add_done_callback(lambda f, _cb=cb: _cb(f.result()))
+        l1.settle()
+        req = l1.transport.sent[-1].request
+        exc = l1.deliver(M.Subscribed(req, 4711) if kind == "subscribe" else M.Registered(req, 4711))
+        l1.settle()
+        evals += 1
+        stats["flat2_request_from_callback"] += 1
+        want_code = R.UNSUBSCRIBE if kind == "subscribe" else R.UNREGISTER
+        if exc is not None:
+            bad("escape", "%s + un%s() in its callback: reply raised %s" % (kind, kind, H.exc_brief(exc)))
+        elif len(inner) != 1:
+            bad("callback-not-run", "%s: callback ran %d times" % (kind, len(inner)))
+        elif inner[0][0] == "raise":
+            bad("api-raised", "un%s() called from the callback of %s() raised %s" % (kind, kind, H.exc_brief(inner[0][1])))
+        elif len(inner[0][2]) != 1 or inner[0][2][0][0] != want_code or inner[0][2][0][2] != 4711:
+            bad("request-wire", "un%s() from the callback of %s(): sent %r" % (kind, kind, inner[0][2]))
+        elif "inner" not in l1.futs or l1.fstate("inner")[0] != "pending":
+            bad("request-future", "un%s() from the callback: result %r" % (kind, l1.fbrief("inner") if "inner" in l1.futs else None))
     return {"evals": evals, "viol": viol, "stats": dict(stats, flat_execs=evals, transitions=evals),
             "samples": [{"kind": "flat2", "cases": evals}]}
 
